@@ -60,6 +60,8 @@ func (o Op) String() string {
 		return fmt.Sprintf("app(%d,\"dup\")", o.A)
 	case "appempty":
 		return fmt.Sprintf("app(%d,\"\")", o.A)
+	case "appbin":
+		return fmt.Sprintf("app(%d,<binary>)", o.A)
 	}
 	return fmt.Sprintf("%s(%d)", o.K, o.A)
 }
@@ -276,10 +278,15 @@ func (w *World) apply(o Op, st *Step) {
 			w.Ent = append(w.Ent, e)
 			w.Returned = append(w.Returned, len(w.St.Adds))
 		}
-	case "appempty":
-		// an entry with an empty payload is a legal entry (Append accepts, signs and stores it)
+	case "appempty", "appbin":
+		// an entry with an empty payload is a legal entry (Append accepts, signs and stores it); so is one whose payload
+		// is not text (bytes that are not valid UTF-8)
 		w.NApp++
-		e, err := w.Logs[o.A].Append(world.Ctx, []byte{}, &ipfslog.AppendOptions{PointerCount: w.pc(o)})
+		payload := []byte{}
+		if o.K == "appbin" {
+			payload = []byte{0xff, 0xfe, byte('0' + w.NApp%10), 0x80}
+		}
+		e, err := w.Logs[o.A].Append(world.Ctx, payload, &ipfslog.AppendOptions{PointerCount: w.pc(o)})
 		st.Err, st.Entry = err, e
 		if err == nil {
 			me := w.M.Append(w.ML[o.A])
